@@ -169,6 +169,22 @@ static void op_threadfirst(const V &a, V &r) {
     body();
     { std::thread t(body); t.join(); }
     body();
+    // objects of the FFT domain allocated by a thread that exits, then transformed and released by this one
+    { const int N = 1024; LagrangeHalfCPolynomial *la = 0, *lb = 0, *lc = 0; TLweParams *tp = new_TLweParams(N, 1, 0., 0.25); TLweSampleFFT *sf = 0;
+      { std::thread t([&]() { la = new_LagrangeHalfCPolynomial(N); lb = new_LagrangeHalfCPolynomial(N); lc = new_LagrangeHalfCPolynomial(N); sf = new_TLweSampleFFT(tp); body(); }); t.join(); }
+      IntPolynomial *A = new_IntPolynomial(N); TorusPolynomial *B = new_TorusPolynomial(N), *R = new_TorusPolynomial(N), *R2 = new_TorusPolynomial(N);
+      for (int i = 0; i < N; i++) { A->coefs[i] = i % 5 - 2; B->coefsT[i] = i * 40503u + 11; }
+      // (the result of Lagrange arithmetic is allocated by this thread: the library binds it to its allocator's FFT processor; transforms work on anybody's objects)
+      { LagrangeHalfCPolynomial *own = new_LagrangeHalfCPolynomial(N); IntPolynomial_ifft(la, A); TorusPolynomial_ifft(lb, B); LagrangeHalfCPolynomialMul(own, la, lb); TorusPolynomial_fft(R, own);
+        TorusPolynomial_ifft(lc, B); TorusPolynomial_fft(R2, lc); for (int i = 0; i < N; i++) { int32_t d = R2->coefsT[i] - B->coefsT[i]; if (d > 1 || d < -1) bad++; } delete_LagrangeHalfCPolynomial(own); }
+      torusPolynomialMultFFT(R2, A, B);
+      for (int i = 0; i < N; i++) if (R->coefsT[i] != R2->coefsT[i]) bad++;
+      TLweSample *c = new_TLweSample(tp), *c2 = new_TLweSample(tp);
+      for (int q = 0; q <= 1; q++) for (int i = 0; i < N; i++) c->a[q].coefsT[i] = (int32_t) (i * 2654435761u + q);
+      tLweToFFTConvert(sf, c, tp); tLweFromFFTConvert(c2, sf, tp);
+      for (int q = 0; q <= 1; q++) for (int i = 0; i < N; i++) { int32_t d = c->a[q].coefsT[i] - c2->a[q].coefsT[i]; if (d > 1 || d < -1) bad++; }
+      delete_TLweSample(c2); delete_TLweSample(c); delete_TorusPolynomial(R2); delete_TorusPolynomial(R); delete_TorusPolynomial(B); delete_IntPolynomial(A);
+      delete_TLweSampleFFT(sf); delete_LagrangeHalfCPolynomial(lc); delete_LagrangeHalfCPolynomial(lb); delete_LagrangeHalfCPolynomial(la); delete_TLweParams(tp); }
     r.push_back(bad);
 }
 #ifdef VERIF_LEDGER
